@@ -146,7 +146,8 @@ Outcome(S, kq, inc, newRate) ==
         kept  == Pass1(seq, 1, 0, {}, kq, inc)
         total == SumInQuai(kept, rate)
     IN  [c \in S |->
-          IF c \in kept
+          \* a kept conversion whose value at the header's own rate is zero is picked up by the revert marking as well
+          IF c \in kept /\ Convert(rate, conv[c].dir, PreVal(c, total, kq, inc)) > 0
           THEN LET p == PreVal(c, total, kq, inc)
                IN  [kind |-> "priced", pre |-> p, val |-> Convert(newRate, conv[c].dir, p),
                     implied |-> Convert(newRate, conv[c].dir, conv[c].amt),
